@@ -198,7 +198,7 @@ Section LexLen.
     first [ rewrite lex_tu_eq in H | rewrite lex_dollar_eq in H | rewrite lex_braced_eq in H
           | rewrite lex_text_eq in H | rewrite lex_twp_eq in H | rewrite lex_wu_eq in H
           | rewrite lex_units_eq in H ];
-    unfold bind in H.
+    unfold lex_param, lex_suffix, bind in H.
 
   Ltac lenfin :=
     lenfacts;
